@@ -12,16 +12,21 @@ Design level : specs/NewInitIdeal.tla gives the meaning of an initializer *point
                accepts them, never writes outside the allocation, allocates exactly
                max(sizeof, extent of the claims), produces the ideal bytes, and new-with-init equals
                new-then-assign.  Four broken variants must be rejected.
-Binding      : spec -> code: every TLC state (shape, initializer) is rendered as a cdef type and a
-               Python initializer and executed; code -> spec: seeded random aggregate types
+               The CT_WITH_VAR_ARRAY flag is modelled as the type system computes it: in API mode nested
+               struct types are lazy and are forced while the outer type is completed (VarFlag);
+               variant "noforce-when-size-known" is rejected.
+Binding      : spec -> code: every TLC state (shape, initializer, type history) is rendered as a cdef type and a
+               Python initializer and executed - the API-mode histories in compiled out-of-line modules
+               whose outer struct is used first; code -> spec: seeded random aggregate types
                (bit-fields, unions, anonymous members, nested arrays, flexible arrays of
                prims/chars/structs, nested var-sized structs) x random nested initializers
-               (list, tuple, dict, bytes/str, cdata copies, integer lengths).  For every case:
+               (list, tuple, dict, bytes/str, cdata copies, integer lengths), in-line and in compiled
+               API-mode modules (var-sized structs nested as last member, typedefs).  For every case:
                ffi.buffer of ffi.new(T, init), of ffi.new(T[, lengths]) followed by p[0] = init,
                ffi.sizeof(p[0]) and the size direct_newp asks the allocator for
                (ffi.new_allocator).  TLC judges every record against the ideal (Trace_NewInit).
 """
-import os
+import importlib, os, sys
 from harness import core, tlaval
 from harness.mem2_common import batch_verdicts, tlc_many, cfg_text, printed_tuple
 from harness import mem2_newinit as mn
@@ -29,9 +34,10 @@ from harness.mem2_child import run_child
 
 LEVEL = "model_checking"
 
-SHAPE_NAMES = ["S1", "S2", "S3", "S4", "S5", "S5w", "S6", "S7", "UN", "A1", "A2", "A3", "A4", "A5", "P1", "PC"]
-INVS = ["WellFormed", "ClaimsDisjoint", "Accepts", "NoOverflow", "Fits", "AllocExact", "BytesAsIdeal", "LawNewAssign"]
+SHAPE_NAMES = ["S1", "S2", "S3", "S4", "S5", "S5w", "S6", "S7", "S8", "UN", "A1", "A2", "A3", "A4", "A5", "P1", "PC"]
+INVS = ["WellFormed", "ClaimsDisjoint", "FlagIsStructural", "Accepts", "NoOverflow", "Fits", "AllocExact", "BytesAsIdeal", "LawNewAssign"]
 
+VARIANTS = ("nozero", "noplus1", "unionall", "nodictprepass", "noforce-when-size-known")
 CLAUSE = {
     "new.raised": "ffi.new raised on a well-formed initializer",
     "new.fits": "the allocation does not contain everything the initializer (items or a length) claims",
@@ -42,8 +48,8 @@ CLAUSE = {
 }
 
 
-def mc_cfg(variant, depth, shapes, invs, kmax=2):
-    return cfg_text("Spec", {"Variant": variant, "Depth": depth, "KMax": kmax, "ShapeNames": set(shapes),
+def mc_cfg(variant, depth, shapes, invs, kmax=2, combos="min"):
+    return cfg_text("Spec", {"Variant": variant, "Depth": depth, "KMax": kmax, "ShapeNames": set(shapes), "Combos": combos,
                              "Pool": {3, 772} if kmax == 2 else {3, 772, 65535}}, invs)
 
 
@@ -53,14 +59,16 @@ def shapes_py():
     SIN = G("SIN", False, [("x", U8, None), ("y", U8, None)])
     UN = G("UN", True, [("w", U16, None), ("b", A(U8, 2), None)])
     S5 = G("S5", False, [("n", U8, None), ("tail", A(U8, None), None)])
+    S6 = G("S6", False, [("k", U8, None), ("inner", S5, None)])
     return {
+        "S8": G("S8", False, [("j", U8, None), ("mid", S6, None)]),
         "S1": G("S1", False, [("a", U8, None), ("b", U16, None), ("c", A(U8, 2), None)]),
         "S2": G("S2", False, [("a", U8, None), ("in", SIN, None), ("z", U8, None)]),
         "S3": G("S3", False, [("t", U8, None), ("u", UN, None)]),
         "S4": G("S4", False, [("a", U8, 3), ("b", U8, 5), ("c", U8, 2), ("d", U8, None)]),
         "S5": S5,
         "S5w": G("S5w", False, [("n", U8, None), ("w", A(C16, None), None)]),
-        "S6": G("S6", False, [("k", U8, None), ("inner", S5, None)]),
+        "S6": S6,
         "S7": G("S7", False, [("a", U8, None),
                               ("", G(None, True, [("p", U8, None), ("q", U16, None)]), None), ("z", U8, None)]),
         "UN": UN, "A1": A(U8, 3), "A2": A(U16, None), "A3": A(SIN, 2), "A4": A(C16, 3), "A5": A(CH, None),
@@ -115,17 +123,20 @@ def render(lab, t, init):
 
 def design_level(ctx):
     depth = 2 if ctx.quick else 3
-    jobs = [("MC_NewInit(16 shapes,depth<=%d)" % depth,
-             dict(module="MC_NewInit", cfg_text=mc_cfg("faithful", depth, SHAPE_NAMES, INVS, kmax=depth), workers=6,
-                  timeout=3000))]
-    for v in ("nozero", "noplus1", "unionall", "nodictprepass"):
+    combos = "min" if ctx.quick else "all"
+    jobs = [("MC_NewInit(17 shapes,depth<=%d,%s type histories)" % (depth, combos),
+             dict(module="MC_NewInit", cfg_text=mc_cfg("faithful", depth, SHAPE_NAMES, INVS, kmax=depth, combos=combos),
+                  workers=6, timeout=3000))]
+    if ctx.quick:        # the quick bound is the bound whose states are executed: the same run dumps them
+        jobs[0][1]["dump"] = os.path.join(ctx.tmp, "newinit_states")
+    for v in VARIANTS:
         jobs.append(("sanity:" + v, dict(module="MC_NewInit", workers=2,
-                                         cfg_text=mc_cfg(v, 2, ["S3", "S5", "S6", "S7", "A5"], INVS))))
+                                         cfg_text=mc_cfg(v, 2, ["S3", "S5", "S6", "S7", "S8", "A5"], INVS))))
     res = tlc_many(jobs, par=5)
     for name, _kw in jobs:
         ctx.add_tlc(name, res[name], require_ok=name.startswith("MC_"), count_states=name.startswith("MC_"))
     ctx.cov["sanity_rejected_by"] = {}
-    for v in ("nozero", "noplus1", "unionall", "nodictprepass"):
+    for v in VARIANTS:
         r = res["sanity:" + v]
         if r.ok or not r.invariant_violated:
             raise core.MachineryError("broken variant %s of the model was not rejected by TLC" % v)
@@ -133,11 +144,15 @@ def design_level(ctx):
     return res[jobs[0][0]]
 
 
-def dump_states(ctx):
+def dump_states(ctx, main_run=None):
     """parent: all (shape, initializer) states of the depth-2 universe and the shape table"""
     dump = os.path.join(ctx.tmp, "newinit_states")
-    r = core.tlc("MC_NewInit", cfg_text=mc_cfg("faithful", 2, SHAPE_NAMES, []), dump=dump, workers=4)
-    ctx.add_tlc("dump(MC_NewInit,depth<=2)", r, count_states=False)
+    if main_run is not None and ctx.quick:
+        r = main_run
+    else:
+        r = core.tlc("MC_NewInit", cfg_text=mc_cfg("faithful", 2, SHAPE_NAMES, [], combos="min" if ctx.quick else "all"),
+                     dump=dump, workers=4)
+        ctx.add_tlc("dump(MC_NewInit,depth<=2)", r, count_states=False)
     shp = printed_tuple(r.out, "SHAPES")
     if not shp:
         raise core.MachineryError("MC_NewInit did not print its shape table")
@@ -155,16 +170,97 @@ def replay_states(ctx, lab, recs, dot, tla_shapes):
                 name, tla_shapes[name]["t"], mine))
     g = tlaval.load_dot(dot)
     n = 0
+    api = {}           # (shape, innerFirst) -> initializers, executed in compiled modules below
     for sid, st in g.states.items():
+        if st["shape"] == "none" or st["init"]["k"] == "pending":
+            continue
         t = py[st["shape"]]
         init = norm(st["init"])
+        if st["mode"] == "api":
+            api.setdefault((st["shape"], st["innerFirst"]), []).append(init)
+            continue
         ctx.about("shape %s init %r" % (st["shape"], init))
         pyinit = None if init["k"] == "none" else render(lab, t, init)
         rec = lab.run_case(t, pyinit, init, "shape %s:%s" % (st["shape"], init["k"]))
         recs.append(rec)
         ctx.case(("state", st["shape"], repr(init)))
         n += 1
+    # API mode: one compiled module per type history.  "outer first": the first thing that happens to the
+    # module's types is ffi.new() of the outer struct; "inner first": the nested types were used before.
+    src = lab.source_for(py["S8"])
+    plans = {"c20_outer8": [("S8", False)], "c20_outer6": [("S6", False)], "c20_inner": [("S6", True), ("S8", True)]}
+    plans = {m: [k for k in ks if k in api] for m, ks in plans.items()}
+    plans = {m: ks for m, ks in plans.items() if ks}
+    if plans:
+        outdir = mn.build_api_modules(ctx.tmp, {m: src for m in plans})
+        sys.path.insert(0, outdir)
+        for m, ks in plans.items():
+            mffi = importlib.import_module(m).ffi
+            alab = mn.Lab(ctx.rng, ffi=mffi)
+            if ks[0][1]:
+                alab.keep.append(mffi.new("struct S5 *"))           # the inner type is realized first
+            for shape, inner_first in ks:
+                t = py[shape]
+                r, how = lab.rec(t), lab.how_of(t)
+                for init in api[(shape, inner_first)]:
+                    ctx.about("API module %s: shape %s init %r" % (m, shape, init))
+                    pyinit = None if init["k"] == "none" else mn.render_record(mffi, alab.keep, r, init)
+                    rec = alab.run_record(r, how, pyinit, init, "api:shape %s:%s" % (shape, init["k"]))
+                    recs.append(rec)
+                    ctx.case(("api-state", shape, inner_first, repr(init)))
+                    n += 1
+            for shape, _i in ks:
+                if not mn.same_layout(mffi, lab.rec(py[shape])):
+                    raise core.MachineryError("API module %s: gcc's layout of %s differs from the shape table" % (m, shape))
     ctx.cov["graph_states_replayed"] = n
+
+
+def api_driver(ctx, lab, recs, nmods, ntypes, ninits):
+    """code -> spec in API mode: compiled modules declaring random structs (plain var-sized, var-sized struct nested
+    as last member at depth 1 and 2, through typedefs, plus ordinary aggregates); in each module the first use of
+    every outer type is the ffi.new() under test, before anything realized its nested types."""
+    rng = ctx.rng
+    mods = {}
+    for m in range(nmods):
+        plan = []
+        for _ in range(ntypes):
+            k = rng.random()
+            if k < 0.15:
+                t = lab.gen_nested_var(1, typedef=rng.random() < 0.4)
+            elif k < 0.50:
+                t = lab.gen_nested_var(2, typedef=rng.random() < 0.4)
+            elif k < 0.70:
+                t = lab.gen_nested_var(3, typedef=rng.random() < 0.4)
+            else:
+                t = lab.gen_agg(rng.choice([0, 1, 2]), rng.random() < 0.5)
+                if rng.random() < 0.3:
+                    t.typedef = "td_" + t.tag
+            lab.declare(t)
+            inits = [lab.gen_init_full(t)[1]] + [lab.gen_init(t, 3)[1] for _ in range(ninits - 1)]
+            plan.append((t, inits))
+        mods["c20_rand%d_%d" % (ctx.seed, m)] = plan
+    outdir = mn.build_api_modules(ctx.tmp, {m: "".join(lab.source_for(t) for t, _i in plan) for m, plan in mods.items()})
+    sys.path.insert(0, outdir)
+    skipped = 0
+    for m, plan in mods.items():
+        mffi = importlib.import_module(m).ffi
+        alab = mn.Lab(rng, ffi=mffi)
+        mine = []
+        for t, inits in plan:
+            r, how = lab.rec(t), lab.how_of(t)
+            for init in inits:
+                ctx.about("API module %s: %s init %r" % (m, how["cdecl"], init))
+                pyinit = None if init["k"] == "none" else mn.render_record(mffi, alab.keep, r, init)
+                rec = alab.run_record(r, how, pyinit, init, "api:" + mn.describe(t, init, lab))
+                mine.append((t, rec))
+                ctx.case(("api", how["cdecl"], repr(init)))
+        for t, rec in mine:                      # layout is C01/C12's subject: only agreeing types are judged
+            if mn.same_layout(mffi, lab.rec(t)):
+                recs.append(rec)
+            else:
+                skipped += 1
+    ctx.cov["api_modules"] = len(mods)
+    ctx.cov["api_cases_skipped_layout_differs"] = skipped
 
 
 def driver(ctx, lab, recs, n):
@@ -198,7 +294,8 @@ def driver(ctx, lab, recs, n):
 
 
 def judge(ctx, recs, report=True):
-    verdicts, diverge, _tot = batch_verdicts(ctx, "Trace_NewInit", [mn.strip(r) for r in recs], chunk=1500)
+    verdicts, diverge, _tot = batch_verdicts(ctx, "Trace_NewInit", [mn.strip(r) for r in recs],
+                                               chunk=max(500, -(-len(recs) // 3)) if ctx.quick else 1500)
     nbad = 0
     for i in sorted(verdicts):
         for clause in verdicts[i]:
@@ -208,6 +305,11 @@ def judge(ctx, recs, report=True):
                 ctx.violation("%s:%s" % (clause, rec["desc"]), CLAUSE.get(clause, clause),
                               {"cdecl": rec["cdecl"], "how": rec.get("how"), "record": mn.strip(rec)})
     ctx.validated(len(recs))
+    if report and ctx.violations:
+        classes = {}
+        for key, _w, _p in ctx.violations:
+            classes[key] = classes.get(key, 0) + 1
+        print("VIOLATION-CLASSES C20: %s" % ", ".join("%s x%d" % kv for kv in sorted(classes.items())))
     return nbad, diverge
 
 
@@ -218,14 +320,20 @@ def produce(cc, args):
     replay_states(cc, lab, recs, args["dot"], args["shapes"])
     nstates = len(recs)
     driver(cc, lab, recs, nstates + (1000 if cc.quick else 20000))
+    napi0 = len(recs)
+    if cc.quick:
+        api_driver(cc, lab, recs, 3, 8, 5)
+    else:
+        api_driver(cc, lab, recs, 10, 12, 10)
+    cc.cov["api_driver_cases"] = len(recs) - napi0
     for r in recs:
         r["init_kind"] = r["init"]["k"]
     return {"recs": recs, "nstates": nstates}
 
 
 def run(ctx):
-    design_level(ctx)
-    out = run_child(ctx, "c20", dump_states(ctx))
+    main_run = design_level(ctx)
+    out = run_child(ctx, "c20", dump_states(ctx, main_run))
     if out is None:
         return
     recs, nstates = out["recs"], out["nstates"]
@@ -306,7 +414,7 @@ META = {
             "new-then-assign; every such state and seeded random aggregate types x nested initializers are executed "
             "on the real cffi three ways (ffi.new with init, allocator-observed size, new then p[0]=init) and TLC "
             "judges every record against the ideal.",
-    "note": "Layout and value encoding are inputs (C01/C03/C05). The allocated size is observed through "
+    "note": "In-line FFIs and compiled API-mode modules (emit_c_code + gcc). Layout and value encoding are inputs (C01/C03/C05). The allocated size is observed through "
             "ffi.new_allocator (same direct_newp path). Ill-formed initializers and dicts naming two overlapping "
             "union members are not judged. ffi.sizeof(p[0]) of objects from a custom alloc= allocator reports the "
             "static size (outside the statement, noted in design_notes/C20.md).",
